@@ -29,6 +29,13 @@ add("C09", "Seeded exploration with arguments biased to accepted-but-unusual val
 add("C13", "Per-row invariant in every configuration: key set == declared outputs == names derived from the query text; each value valid for the declared type (validity re-implemented from the type text); declared type == the documented rule computed from the harness AST.", MODEL_NOTE, "deterministic simulation: per-event invariant on ROW events across schedules and cancellation paths")
 add("C21", "Online contract monitor at every adapter call and every pulled context, in every configuration: type defined; property/edge defined on it or __typename; coercion target a subtype; edge parameters exactly the declared set, of the declared type, equal to what the query text plus schema defaults say; every non-null active vertex an instance of the named type.", ENGINE_NOTE, "deterministic simulation: per-event invariant on CALL/PULL events")
 
+add("C14", "K separate processes that differ only in the hash seed behind an LD_PRELOAD getrandom seam (every HashMap/HashSet iteration order in the process is a function of VERIF_HASH_SEED), plus two in-process repetitions with freshly built schemas; digests of (compiled query or error, row sequence, complete adapter event log) must be identical for valid queries, deliberately broken queries and deliberately broken schemas.", "The hash seed is taken to be the only per-process nondeterminism trustfall_core can observe (no clocks, threads or I/O in it); ASLR left on, uncontrolled. required_properties() order excluded (documented as unordered). Sampling.", "deterministic simulation: process-level hash seed behind a seam, seeded workloads, cross-process log diff", engine="hashsim")
+add("C15", "Record -> persist -> lose the source -> replay: the workload runs through AdapterTap<SimAdapter> (lazy, or read-ahead inside next() below the tap); rows must equal the untapped run; the Trace is serialised to RON, deserialised and compared; replay from the deserialised trace alone must reproduce the rows (complete, and a cancelled row prefix with complete=false) while the simulated data source sees no event.", ENGINE_NOTE + " Prefetch inside the resolver call is excluded: TraceReaderAdapter cannot replay such traces by design; recordings are never cancelled (the replayer always asks for one row more than expected).", "deterministic simulation: recorded history (trace) replayed after dropping the data source; read-ahead schedules below the tap")
+add("C22", "Workload biased to folds with count filters (all operators, boundary arguments, nested folds, count tags used in the same component, in later folds and in later folds' count filters) under random schedules; refinement against the reference model, which materialises every fold fully; and, model-free, three observation transforms (add a count output, add an output nested inside the fold, add a count tag plus a neutral use) must leave the original outputs and the row multiset unchanged.", MODEL_NOTE, "deterministic simulation: refinement against a full-materialisation model + observation transforms across independently drawn schedules")
+add("C23", "Eight metamorphic relations applied only where sound (add filter => subset; raise recursion depth => superset; make edge @optional => superset; parameterised edge == equivalent filter; '=' == one_of [x]; filter + exact negation partition the unfiltered rows; renaming outputs/tags; reordering sibling selections), original and transformed query each under an independently drawn schedule and hint subset, so the relation is checked across legal adapter behaviours.", ENGINE_NOTE + " The 'equivalent filter' relation uses the harness's own meaning of edge parameters (Eq/Min on a destination property).", "deterministic simulation: metamorphic relations between two independently scheduled runs")
+add("C24", "Compile-time Send+Sync assertion for Schema, IndexedQuery, IRQuery, InterpretedQuery, FieldValue, Type, EdgeParameters; and Miri as the thread scheduler (one -Zmiri-seed = one repeatable interleaving, data-race and UB detection): 2-3 threads from a barrier with cold statics parse/compile/execute concurrently, then share one Arc<Schema> and one Arc<IndexedQuery>; results must equal a sequential recomputation.", "Few interleavings per minute; assurance rests on the shared state being five OnceLock statics plus Arc counters, all visible to Miri (a change adding new shared state is seen too, unlike with shimmed primitives).", "deterministic simulation: Miri-seeded thread schedules with race detection; compile-time bound check", engine="mirisim")
+add("C25", "Fault enumeration: for each generated schema, every single contract violation (reorder by swap/rotate/reverse; non-null property, a neighbor, or a true coercion for a context without an active vertex) at every (resolver, type, field) site the checker reaches and at first/middle/last position is injected into an otherwise correct adapter, one per run of the real check_adapter_invariants; it must panic exactly when the fault fired, return for the fault-free adapter, and reach every documented site.", "Exhaustive per schema over the stated single-fault space; schemas sampled by seed. The faulty adapter records that it really emitted the illegal output (fired).", "deterministic simulation: complete single-fault enumeration per schema against the real invariant checker", category="fault_enumeration")
+
 not_applicable = {
     "C06": "pure set algebra on two in-memory values (hints/candidates.rs): no party, schedule, fault or interleaving to simulate; input generation would be property-based testing, a different technique",
     "C07": "each filter operator is a pure function of two values (filtering.rs): nothing to schedule or fault; the C01 model carries an independent copy of the definitions but the exhaustive operand-pair claim is not made",
@@ -72,6 +79,8 @@ manifest = {
     },
     "engines": [
         {"name": "tfsim", "path": "/verif/sim", "serves_properties": sorted(k for k, v in checks.items() if v["engine"] == "tfsim"), "kind_free_text": TFSIM},
+        {"name": "hashsim", "path": "/verif/sim/src/hashsim.rs + /verif/hashsim/getrandom_shim.c", "serves_properties": ["C14"], "kind_free_text": "worker processes of tfsim whose std hash seeds come from an LD_PRELOAD getrandom shim keyed by VERIF_HASH_SEED; driver diffs their logs"},
+        {"name": "mirisim", "path": "/verif/mirisim (+ /verif/sendsync)", "serves_properties": ["C24"], "kind_free_text": "small threaded program over trustfall_core executed by Miri (cargo +nightly miri run -Zmiri-many-seeds), which owns the scheduler; plus a compile-time Send+Sync crate"},
     ],
     "checks": [checks[k] for k in sorted(checks)],
     "not_applicable": [{"property_id": k, "reason": v} for k, v in sorted(not_applicable.items())],
